@@ -12,6 +12,7 @@ import z3
 
 from pyvc import vals as V
 from pyvc.contract import Pack, T, OBJ, STR, OPT_STR, INT, FRACTION, NONE, ANY
+from pyvc.engine import SV, Model
 
 
 def _classes():
@@ -283,6 +284,17 @@ def build(active_known=frozenset()):
         pv = eng.libcls["PVec"]
         cid = eng.class_id(pv)
         eng.field_types[("PersistentVector", "_inner")] = lambda v: (z3.And(V.is_ref(v), V.cls_of(V.Val.a(v)) == cid), pv)
+        from basilisp.lang import runtime as _rt
+
+        def compare_abs(e, s, a, k):
+            # compare on two elements of one comparable family (its contracts are above): an integer whose sign is the
+            # family's order - negative iff x < y, positive iff y < x
+            x, y = e.lift(a[0], s), e.lift(a[1], s)
+            c_ = z3.Int(V.fresh_name("cmp"))
+            s.assume((c_ < 0) == V.py_lt(x, y), (c_ > 0) == V.py_lt(y, x))
+            yield s, SV(V.mk_int(c_))
+
+        eng.models[id(_rt.compare)] = Model("compare on elements of one comparable family (sign = the family's order)", compare_abs)
 
     def A(view, obj):
         return V.seq_of(V.Val.a(view.field(obj, "_inner")))
@@ -314,6 +326,32 @@ def build(active_known=frozenset()):
 
     c.loop(0, invariant=vec_inv, frame=[], lists=False)
     pack.assume("vector elements: x < y is an uninterpreted relation and x > y its converse (elements of one comparable family)")
+
+    # nil is a member of every comparable family ("with nil below everything"): a vector may hold it
+    def vec1_setup(eng, st):
+        lib.install(eng)
+        pv = eng.libcls["PVec"]
+        cid = eng.class_id(pv)
+        eng.field_types[("PersistentVector", "_inner")] = lambda v: (z3.And(V.is_ref(v), V.cls_of(V.Val.a(v)) == cid), pv)
+
+    for nil_left in (True, False):
+        c = pack.contract("basilisp.lang.vector:PersistentVector.__lt__")
+        c.label = "one-element vectors, nil against a number, nil on the " + ("left" if nil_left else "right")
+        c.param("self", OBJ(PersistentVector)).param("other", OBJ(PersistentVector))
+        c.setup(vec1_setup)
+
+        def pre(a, nil_left=nil_left):
+            sa, sb = A(a.pre, a.self), A(a.pre, a.other)
+            x, y = (sa[0], sb[0]) if nil_left else (sb[0], sa[0])
+            return z3.And(z3.Length(sa) == 1, z3.Length(sb) == 1, V.is_none(x), V.is_int(y))
+
+        c.requires("both vectors have one element: nil in one, an integer in the other", pre)
+        c.raises()
+        c.ensures("nil sorts below every number inside a vector as well: [nil] < [n], and not the other way round",
+                  lambda a, nil_left=nil_left: z3.And(V.is_bool(a.result), V.Val.b(a.result) == z3.BoolVal(nil_left)))
+        c.loop(0, invariant=lambda ctx: ctx.i == 0, frame=[], lists=False)  # (the first pair decides: the back edge is never taken)
+        c.replay(lambda m, ctx, ob: VEC_NIL_REPLAY)
+        c.replay_without_model = True
 
     # ---------------------------------------------------------------- lemmas about the spec order
     def consts(*names):
@@ -585,6 +623,22 @@ def add_sort(pack):
                   f"under key objects whose < is exactly {what} - so ties keep their input order (sorted is stable) and nothing else decides the order", post)
         c.replay(lambda m, ctx, ob: SORT_REPLAY)
         c.replay_without_model = True
+
+
+VEC_NIL_REPLAY = r'''
+from basilisp.lang import runtime as rt, vector as vec
+bad = []
+for a, b, want in ((vec.v(None), vec.v(1), -1), (vec.v(1), vec.v(None), 1), (vec.v(None, 1), vec.v(1, 1), -1), (vec.v(1, None), vec.v(1, 2), -1), (vec.v(None), vec.v(None), 0)):
+    try:
+        got = rt.compare(a, b)
+    except Exception as e:
+        got = "%s: %s" % (type(e).__name__, e)
+    if got != want:
+        bad.append("(compare %s %s) -> %r, expected %r" % (a, b, got, want))
+for line in bad:
+    print(line)
+print("REPRODUCED" if bad else "not reproduced")
+'''
 
 
 SORT_REPLAY = r'''
